@@ -529,34 +529,68 @@ def r5(ctx, rep):
     # what Rust's char::escape_default can emit (besides quotes, which the printer leaves alone)
     expected = {"t": "\t", "r": "\r", "n": "\n", "\\": "\\"}
     ea = syn.fn("lr::escape_all_except_quotes", crate="prqlc_parser")
-    txt = show_stmts(ea["body"], maxdepth=12)
-    shape = False
-    for n in walk(ea["body"]):
-        if n.get("k") == "if":
-            c = n["c"]
-            quotes = sorted(lit_val(x["rhs"]) for x in walk(c) if x.get("k") == "bin" and x["op"] == "==" and show(x["lhs"]) == "ch")
-            shape = (quotes == ['"', "'"] and c.get("op") == "||" and "result.push(ch)" in show_stmts(n["t"])
-                     and "ch.escape_default()" in show_stmts(n.get("e"), maxdepth=10))
-    rep.check(shape, "printer:shape",
-              f"escape_all_except_quotes must pass quotes through and escape_default() everything else; found `{txt}`", file=ea["file"], line=ea["l"], fn=ea["path"])
+    # the printer is evaluated on representative characters (it looks at its input only through comparisons with character literals) and
+    # what it prints is decoded with the lexer's own escape table: printer and lexer must compose to the identity, whatever the
+    # printer is spelled like (if / match / escape_default / escape_debug ..)
+    import strfn
+    bad = []
+    for ch in strfn.REPRESENTATIVES:
+        try:
+            out = strfn.eval_loop(ea["body"], ch)
+        except strfn.Unreadable as e:
+            bad.append(f"unreadable ({e})")
+            break
+        if ch in ('"', "'"):
+            if out != ch:
+                bad.append(f"{ch!r} printed as {out!r} (quotes are the business of quote_string, which picks the delimiter)")
+            continue
+        m_ = re.fullmatch(r"\\u\{([0-9a-fA-F]+)\}", out)
+        if out == ch and ch != "\\":
+            continue
+        if len(out) == 2 and out[0] == "\\" and lex.get(out[1]) == ch:
+            continue
+        if m_ and has_u and int(m_.group(1), 16) == ord(ch):
+            continue
+        bad.append(f"{ch!r} printed as {out!r}, which the lexer does not decode back to it")
+    rep.check(not bad, "printer:shape", f"escape_all_except_quotes followed by the lexer's escape decoding must be the identity: {bad[:3]}", file=ea["file"], line=ea["l"], fn=ea["path"])
     for e, ch in expected.items():
         rep.check(lex.get(e) == ch, f"escape:\\{e}", f"the printer emits `\\{e}` for {ch!r} but the lexer decodes `\\{e}` to {lex.get(e)!r}", file=pe["file"], line=pe["l"], fn=pe["path"])
     rep.check(has_u, "escape:\\u{..}", "the printer emits \\u{hex} for non-ASCII/control characters; the lexer must decode \\u{hex} as a code point", file=pe["file"], line=pe["l"], fn=pe["path"])
     rep.check(quote_arm, "escape:quote", "an escaped delimiter quote must decode to the quote itself", file=pe["file"], line=pe["l"], fn=pe["path"])
     # interpolation printer
     di = syn.fn("codegen::ast::display_interpolation", crate="prqlc")
-    reps = []
-    for m in walk(di["body"]):
-        if m.get("k") == "mcall" and m["m"] == "replace" and len(m["a"]) == 2:
-            reps.append((lit_val(m["a"][0]), lit_val(m["a"][1]), m["l"]))
-    reps.sort(key=lambda x: x[2])
-    want = {"\\": "\\\\", '"': '\\"', "{": "{{", "}": "}}"}
-    got = {a: b for a, b, _ in reps}
+    # the literal parts of an interpolated string: the text appended for `InterpolateItem::String(s)` is evaluated on one-character
+    # inputs (replace chains are applied in order, a per-character loop is followed)
+    want = {"\\": "\\\\", '"': '\\"', "{": "{{", "}": "}}", "a": "a", "é": "é", "'": "'"}
+    arm = None
+    for m in matches_of(di["body"]):
+        for a_ in m["arms"]:
+            if "InterpolateItem::String" in show(a_["pat"], maxdepth=6):
+                arm = a_
+    got = {}
+    if arm is not None:
+        var = [x["n"] for x in walk(arm["pat"]) if x.get("k") == "p_ident"]
+        var = var[0] if var else None
+        for ch in want:
+            val = None
+            try:
+                chains = [n for n in walk(arm["body"]) if n.get("k") == "mcall" and n["m"] == "replace" and not (strfn and any(p_.get("k") == "mcall" and p_["m"] == "replace" and p_["r"] is n for p_ in walk(arm["body"])))]
+                loops_ = [n for n in walk(arm["body"]) if n.get("k") == "for" and var and (var + ".chars()") in show(n["e"])]
+                if chains:
+                    val = strfn.eval_chain(chains[0], var, ch)
+                elif loops_:
+                    names_ = [x["n"] for x in walk(loops_[0]["pat"]) if x.get("k") == "p_ident"]
+                    accs = [show(x["r"]) for x in walk(loops_[0]["body"]) if x.get("k") == "mcall" and x["m"] in ("push", "push_str", "extend")] + \
+                           [show(x["lhs"]) for x in walk(loops_[0]["body"]) if x.get("k") == "bin" and x["op"] == "+="]
+                    val = strfn._run(loops_[0]["body"]["s"], accs[0], names_[0], ch) if accs and names_ else None
+                elif var and show(arm["body"], maxdepth=6).replace(" ", "") in (f"r+={var}", f"r.push_str({var})", f"{{r+={var}}}"):
+                    val = ch
+            except strfn.Unreadable:
+                val = None
+            got[ch] = val
     for a, b in want.items():
         rep.check(got.get(a) == b, f"interp:{a}", f"display_interpolation must print {a!r} as {b!r} (found {got.get(a)!r}): otherwise the text re-lexes differently "
                   "(a bare backslash starts an escape, a quote ends the string, a brace starts an expression)", file=di["file"], line=di["l"], fn=di["path"])
-    order = [a for a, b, _ in reps]
-    rep.check(order[:1] == ["\\"], "interp:order", f"backslashes must be doubled before the other replacements add backslashes (order found: {order})", file=di["file"], line=di["l"], fn=di["path"])
     # delimiter is the double quote
     rep.check("r += '\"'" in show_stmts(di["body"], maxdepth=6).replace("'\\\"'", "'\"'") or '"\\""' in str(strs(di["body"])) or '"' in strs(di["body"]), "interp:delimiter", "interpolated strings are delimited by double quotes", file=di["file"], line=di["l"], fn=di["path"])
 
